@@ -21,44 +21,6 @@ def Err.name : Err → String
   | .nonInvertible => "NonInvertible" | .unsupported => "Unsupported"
   | .invalid => "Invalid" | .general => "General" | .io => "Io" | .operator => "Operator"
 
-/-! ### RawParameters -/
-
-structure RawParameters where
-  invocation : Str
-  definition : Str
-  globals : PMap
-  level : Nat
-  deriving Repr, Inhabited
-
-namespace RawParameters
-
-/-- the recursion limit (`recursion_level > 100`) -/
-def limit : Nat := 100
-
-/-- `RawParameters::next` -/
-def next (self : RawParameters) (definition : Str) : RawParameters :=
-  let isRes := isResourceName definition
-  let globals :=
-    if isRes then
-      (((((self.globals.erase nameKey).extend (splitIntoParameters definition)).erase (S "inv")).erase
-        (S "omit_fwd")).erase (S "omit_inv"))
-    else self.globals
-  { invocation := self.invocation
-    definition := trim definition
-    globals := globals
-    level := self.level + 1 + (if isRes then 1 else 0) }
-
-/-- `RawParameters::new` -/
-def new (invocation : Str) (globals : PMap) : RawParameters :=
-  if isResourceName invocation then
-    let previous : RawParameters := { invocation, definition := [], globals, level := 0 }
-    previous.next previous.invocation
-  else { invocation, definition := invocation, globals, level := 0 }
-
-def nestingTooDeep (self : RawParameters) : Bool := self.level > limit
-
-end RawParameters
-
 /-! ### chase -/
 
 /-- index of the first not yet visited entry with the given key -/
@@ -99,6 +61,53 @@ def chase (globals locals : PMap) (key : Str) : Except Err (Option Str) :=
   -- "locals before globals" matters
   let hay := locals ++ globals
   chaseLoop hay key (hay.length + 1) [] key [] false
+
+/-! ### RawParameters -/
+
+structure RawParameters where
+  invocation : Str
+  definition : Str
+  globals : PMap
+  level : Nat
+  deriving Repr, Inhabited
+
+namespace RawParameters
+
+/-- the recursion limit (`recursion_level > 100`) -/
+def limit : Nat := 100
+
+/-- `RawParameters::next` -/
+def next (self : RawParameters) (definition : Str) : RawParameters :=
+  let isRes := isResourceName definition
+  let globals :=
+    if isRes then
+      let args := splitIntoParameters definition
+      -- `Op::op` calls `next` once more for an invocation already handled
+      let already := args.contains nameKey && self.globals.get? nameKey == args.get? nameKey
+      if already then self.globals else
+      -- references to the caller's parameters are resolved now, in the caller's environment
+      let args' : PMap := args.map fun e =>
+        match chase self.globals [(e.1, e.2)] e.1 with
+        | .ok (some r) => (e.1, r)
+        | _ => e
+      (((((self.globals.erase nameKey).extend args').erase (S "inv")).erase
+        (S "omit_fwd")).erase (S "omit_inv"))
+    else self.globals
+  { invocation := self.invocation
+    definition := trim definition
+    globals := globals
+    level := self.level + 1 + (if isRes then 1 else 0) }
+
+/-- `RawParameters::new` -/
+def new (invocation : Str) (globals : PMap) : RawParameters :=
+  if isResourceName invocation then
+    let previous : RawParameters := { invocation, definition := [], globals, level := 0 }
+    previous.next previous.invocation
+  else { invocation, definition := invocation, globals, level := 0 }
+
+def nestingTooDeep (self : RawParameters) : Bool := self.level > limit
+
+end RawParameters
 
 /-! ### sexagesimal -/
 
